@@ -15,18 +15,21 @@ def cfg_for(mode, tstrength_doc=False):
     return p
 
 
-def record(chk, yv, tag, nfiles, programs, steps, exclude=(), only=None, force_drop=False):
+def record(chk, yv, tag, nfiles, programs, steps, exclude=(), only=None, force_drop=False, range_regimes=False):
     wd = workdir(tag)
     files = []
     os.environ["YV_EXCLUDE"] = ",".join(exclude)
     if force_drop:
         os.environ["YV_FORCE_DROP"] = "1"
+    if range_regimes:
+        os.environ["YV_RANGE_REGIMES"] = "1"
     for i in range(nfiles):
         f = os.path.join(wd, "trace_%s%d.ndjson" % (only or "", i))
         n = harness_lines(run_harness(yv, ["ind-record", chk.seed * 100 + i, programs, steps, 1, f] + ([only] if only else [])))[0]["events"]
         files.append((f, n))
     os.environ["YV_EXCLUDE"] = ""
     os.environ.pop("YV_FORCE_DROP", None)
+    os.environ.pop("YV_RANGE_REGIMES", None)
     return files
 
 
